@@ -234,7 +234,7 @@ impl DOP853 {
         f.ode(x, &y, &mut k1);
         evals.ode += 1;
         let mut h = match self.first_step {
-            Some(h0) => h0.abs() * posneg,
+            Some(h0) => h0.abs().min(h_max) * posneg,
             None => {
                 evals.ode += 1;
                 hinit(
